@@ -395,4 +395,8 @@ def run(ctx):
                         ok = True
             res.add("K-IDX", f, norm(n), "condition", "ok" if ok else ("unknown" if any_if or v.enclosing_all(n, (ast.If,)) else "violation"), "" if ok else "the inverse mapping is not applied exactly when an initial hypergraph was given", loc(v.fi, n))
     res.assumptions += ["numpy Generators constructed from equal seeds produce equal streams (library)", "degree / size conditioning and chain invariants are not decided (set algebra + asserts)"]
+    with res.guard("general lint pack over the property's files"):
+        from ..lints import check_pack
+
+        check_pack(ctx, res, "C16")
     return res
